@@ -215,6 +215,33 @@ def evaluate(case) -> Result:
                 w.peer_close(cur)
             elif kind == "RESET" and cur is not None:
                 w.peer_reset(cur)
+            elif kind in ("WRITE_FAIL", "GARBAGE_BLOCKED") and cur is not None and not cur.node_closed and not cur.peer_closed:
+                # socket error while output is pending: the node's write fails hard (WRITE_FAIL), or the peer has stopped
+                # reading and sends bytes that are no diameter message (GARBAGE_BLOCKED) - the connection is lost
+                hbh += 1
+                nc_ = w.node_conn_for(cur)
+                was_ready = nc_ is not None and nc_.state in pm.PEER_READY_STATES     # the DWR below is answered only then
+                if kind == "WRITE_FAIL":
+                    cur.remote.fail_writes(32)
+                else:
+                    cur.remote.sock.tx_blocked = True
+                raw = W.build_msg({"k": "DWR", "host": case.get("spell") or "peer1.example", "hbh": hbh, "e2e": hbh})
+                cur.remote.send(raw)
+                cur.in_frames.append(W.Frame(w.k.now, raw))
+                w.run()
+                if kind == "GARBAGE_BLOCKED":
+                    cur.remote.send(bytes(20))
+                    w.run()
+                cur.peer_closed = True
+                w.run()
+                w.sync_dialed()
+                res.classes.append(f"loss:{kind.lower()}")
+                if was_ready and not cur.node_closed:
+                    # the connection is lost for the node as well: it gives the socket up at once (no timer is involved),
+                    # which is what starts the peer's reconnect wait
+                    res.v(f"C12/socket-error/not-given-up/{kind.lower()}",
+                          f"after the {'failed write' if kind == 'WRITE_FAIL' else 'garbage of a peer that does not read'} the node keeps the socket open "
+                          f"(connection state {getattr(w.node_conn_for(cur), 'state', None)})")
             elif kind in ("DPR", "DPR_CLOSE") and cur is not None:
                 if live_out and live_in and not case.get("allow_known"):
                     # the peer has two live connections (known finding: the election of RFC 6733 5.6.4 never runs, only
@@ -646,7 +673,8 @@ def shard_main(shard, nshards, tier, scale):
         ev = st.one_of(adv, adv, st.tuples(st.just("CONNECT_OK")), st.tuples(st.just("CONNECT_OK")),
                        st.tuples(st.just("CONNECT_FAIL")), st.tuples(st.just("CEA"), st.sampled_from([2001, 2001, 3010])),
                        st.tuples(st.just("INBOUND")), st.tuples(st.just("INBOUND2")), st.tuples(st.just("CLOSE")), st.tuples(st.just("RESET")),
-                       st.tuples(st.just("DPR")), st.tuples(st.just("DPR")), st.tuples(st.just("DWA")), st.tuples(st.just("DPR_CLOSE")))
+                       st.tuples(st.just("DPR")), st.tuples(st.just("DPR")), st.tuples(st.just("DWA")), st.tuples(st.just("DPR_CLOSE")),
+                       st.tuples(st.just("WRITE_FAIL")), st.tuples(st.just("GARBAGE_BLOCKED")))
         plan = draw(st.lists(st.sampled_from(["ok", "inprogress", "inprogress", ["sync-error", 111], ["sync-error", 101]]),
                              max_size=6))
         return {"flags": flags, "dial_plan": plan, "seed": draw(st.integers(0, 3)), "spell": draw(st.sampled_from([None, None, "PEER1.Example"])), "busy_peer2": draw(st.booleans()),
@@ -679,7 +707,7 @@ def shard_main(shard, nshards, tier, scale):
                 cea = draw(st.sampled_from(["2001", "2001", "2001", "3010", "none"]))
                 if cea == "2001":
                     ev.append(["CEA", 2001])
-                    ev.append(draw(st.sampled_from([["CLOSE"], ["RESET"], ["DPR_CLOSE"], ["DPR_CLOSE"], ["DPR"], ["ADV", 1]])))
+                    ev.append(draw(st.sampled_from([["CLOSE"], ["RESET"], ["DPR_CLOSE"], ["DPR_CLOSE"], ["DPR"], ["ADV", 1], ["WRITE_FAIL"], ["GARBAGE_BLOCKED"]])))
                     if ev[-1] == ["DPR"]:
                         if draw(st.booleans()):
                             ev.append(["DWA"])
@@ -750,7 +778,7 @@ def run(tier, scale=1.0):
     rec = Recorder(PID)
     for d in hyp.pool_run(shard_main, (tier, scale)):
         rec.merge(d)
-    required = {"start-race:dial-sync-error": 1, "cea-then-fin-schedule": 1, "start-race:dial-inprogress": 1, "dpr-vs-watchdog-schedule": 1, "dpr-vs-watchdog:dwr-sent:1": 1, "start-race-schedule": 1, "other-peer-busy": 1, "second-connection-by-the-peer": 1, "identity:respelled": 1, "stop-race-schedule": 1, "persistent:True": 1, "persistent:False": 1, "always:True": 1, "addr:False": 1, "losses:2": 1,
+    required = {"loss:write_fail": 1, "loss:garbage_blocked": 1, "dpr-repeated": 1, "start-race:dial-sync-error": 1, "cea-then-fin-schedule": 1, "start-race:dial-inprogress": 1, "dpr-vs-watchdog-schedule": 1, "dpr-vs-watchdog:dwr-sent:1": 1, "start-race-schedule": 1, "other-peer-busy": 1, "second-connection-by-the-peer": 1, "identity:respelled": 1, "stop-race-schedule": 1, "persistent:True": 1, "persistent:False": 1, "always:True": 1, "addr:False": 1, "losses:2": 1,
                 "dpr-on-ready": 1, "dwa-event": 1, "dwr-outstanding-at-dpr": 1, "reason-dpr": 1, "dials:3": 1, "loss:sync-refused": 1, "loss:cea-timeout": 1}
     return finish(rec, tier=tier, level="exploration", rule=RULE, assumptions=ASSUME, t0=t0,
                   required_classes=required)
